@@ -151,6 +151,40 @@ int main(int argc, char **argv)
         report_counters();
         return 0;
     }
+    if (!strcmp(argv[1], "sweep") && argc >= 6) {
+        /* single-fault sweep: for each base seed every (blocking call x instant in its window x fault kind x priority side) */
+        const engine *e = engine_by_name(argv[2]);
+        if (!e->sweep) die("engine %s has no sweep", e->name);
+        const uint64_t base = strtoull(argv[3], NULL, 10);
+        const uint64_t i0 = strtoull(argv[4], NULL, 10), i1 = strtoull(argv[5], NULL, 10);
+        for (uint64_t i = i0; i < i1; i++) {
+            const uint64_t bseed = mix64(base, i);
+            const int n = e->sweep(bseed, cfg, -1, NULL);
+            for (int k = 0; k < n; k++) {
+                plan p;
+                e->sweep(bseed, cfg, k, &p);
+                cur_seed = p.seed;
+                printf("SW %" PRIu64 " %" PRIu64 " %d\nSTART %" PRIu64 "\n", p.seed, bseed, k, p.seed);
+                fflush(stdout);
+                alarm(30);
+                reset_run_state();
+                e->run(&p);
+                report(p.seed);
+                plan_free(&p);
+            }
+            PROBE("sweep.base_programs");
+        }
+        report_counters();
+        return 0;
+    }
+    if (!strcmp(argv[1], "sweepgen") && argc >= 5) {
+        const engine *e = engine_by_name(argv[2]);
+        if (!e->sweep) die("engine %s has no sweep", e->name);
+        plan p;
+        e->sweep(strtoull(argv[3], NULL, 10), cfg, atoi(argv[4]), &p);
+        plan_write(&p, stdout);
+        return 0;
+    }
     if ((!strcmp(argv[1], "one") || !strcmp(argv[1], "gen")) && argc >= 4) {
         const engine *e = engine_by_name(argv[2]);
         const uint64_t seed = strtoull(argv[3], NULL, 10);
